@@ -150,14 +150,21 @@ def load_theory_cache(filename, username="master"):
 
     # Load all required macros and methods for this file.
     # Make table for this later.
-    if filename == 'logic':
-        from prover import z3wrapper
-    if filename == 'expr':
-        from data import expr
-    if filename == 'real':
-        from data import real
-    if filename == 'hoare':
-        from imperative import imp
+    # Importing these modules may itself load theories (several of them call
+    # load_theory when first imported), which replaces the current theory:
+    # keep the theory of the caller.
+    prev_thy = theory.thy
+    try:
+        if filename == 'logic':
+            from prover import z3wrapper
+        if filename == 'expr':
+            from data import expr
+        if filename == 'real':
+            from data import real
+        if filename == 'hoare':
+            from imperative import imp
+    finally:
+        theory.thy = prev_thy
 
     # Load all imported theories
     depend_list = get_import_order(cache['imports'], username)
